@@ -70,6 +70,18 @@ func (c *ctx) parallel(n int, fn func(i int, r *rng.R)) {
 	for i := 0; i < n; i++ {
 		next <- i
 	}
+	// long runs: the first cases and a sample of the others are evaluated once more after everything else (a case is a
+	// pure function of its index, so this is the same call made late in the life of the process - whatever the library
+	// remembers between calls has seen thousands of other inputs by now)
+	if n >= 512 {
+		for i := 0; i < 64; i++ {
+			next <- i
+		}
+		for i := 64; i < n; i += n / 64 {
+			next <- i
+		}
+		c.Class("late-revisits-of-early-cases")
+	}
 	close(next)
 	wg.Wait()
 }
